@@ -946,7 +946,8 @@ impl Vm {
           ),
         )
       },
-      ImportResult::CompileError => ExecutionSignal::Exit,
+      // the diagnostics have been printed, end the program with the compile error status
+      ImportResult::CompileError => self.set_exit(1),
     };
 
     self.pop_roots(2);
@@ -1028,7 +1029,8 @@ impl Vm {
           ),
         )
       },
-      ImportResult::CompileError => ExecutionSignal::Exit,
+      // the diagnostics have been printed, end the program with the compile error status
+      ImportResult::CompileError => self.set_exit(1),
     };
 
     self.pop_roots(2);
